@@ -48,6 +48,12 @@ type Run struct {
 	t0       time.Time
 	counters map[string]int64
 	observed map[string]bool
+
+	// DeadlockIsViolation: a bubble in which nothing can ever run again because a goroutine inside
+	// bisquitt waits for a sync.Mutex (see deadlockMonitor) is a violation of this run's property
+	// (set by the checks whose property says that sessions / API calls end); otherwise inconclusive.
+	DeadlockIsViolation bool
+	running             map[int64]*Case // runner goroutine id -> case in progress
 }
 
 func envInt(k string, d int64) int64 {
@@ -64,7 +70,7 @@ func Start(t *testing.T, prop string) *Run {
 	r := &Run{Prop: prop, Tier: os.Getenv("VERIF_TIER"), Seed: envInt("VERIF_SEED", 1),
 		Out: os.Getenv("VERIF_OUT"), Only: int(envInt("VERIF_ONLY", -1)), Reps: int(envInt("VERIF_REPS", 1)),
 		started: map[int]bool{}, done: map[int]bool{}, retried: map[int]bool{}, t0: time.Now(),
-		counters: map[string]int64{}}
+		counters: map[string]int64{}, running: map[int64]*Case{}}
 	if r.Tier == "" {
 		r.Tier = "quick"
 	}
@@ -100,7 +106,124 @@ func Start(t *testing.T, prop string) *Run {
 		t.Fatalf("journal: %v", err)
 	}
 	r.f = f
+	go r.deadlockMonitor()
 	return r
+}
+
+func goid() int64 {
+	var b [64]byte
+	n := runtime.Stack(b[:], false)
+	f := strings.Fields(string(b[:n]))
+	if len(f) > 1 {
+		id, _ := strconv.ParseInt(f[1], 10, 64)
+		return id
+	}
+	return -1
+}
+
+// deadlockMonitor runs outside every bubble. A synctest clock cannot advance while a goroutine of
+// the bubble is blocked on a sync.Mutex (not a "durable" block), so a mutex that is never released
+// inside the code under test freezes the case until the driver's wall-clock watchdog. The monitor
+// samples all goroutine stacks; a bubble in which EVERY goroutine is blocked durably or on a
+// sync mutex, at least one of them on a mutex below a bisquitt frame, identically in two samples
+// 4 s apart, can never make progress again (nothing in it can run, time cannot advance, and only
+// its own goroutines touch its mutexes): that is a deadlock, decided on goroutine states, not on
+// elapsed time. The case is journaled (violation or inconclusive, see DeadlockIsViolation) and the
+// process exits with code 3 so that the driver resumes with the next case.
+func (r *Run) deadlockMonitor() {
+	prev := map[string]string{}
+	for {
+		time.Sleep(4 * time.Second)
+		buf := make([]byte, 32<<20)
+		n := runtime.Stack(buf, true)
+		type g struct {
+			id    int64
+			state string
+			stack string
+		}
+		bubbles := map[string][]g{}
+		for _, b := range strings.Split(string(buf[:n]), "\n\n") {
+			if !strings.HasPrefix(b, "goroutine ") {
+				continue
+			}
+			i, j := strings.Index(b, "["), strings.Index(b, "]:")
+			if i < 0 || j < i {
+				continue
+			}
+			id, _ := strconv.ParseInt(strings.TrimSpace(b[len("goroutine "):i]), 10, 64)
+			var state, tag string
+			for k, f := range strings.Split(b[i+1:j], ", ") {
+				if k == 0 {
+					state = f
+				}
+				if strings.HasPrefix(f, "synctest bubble ") {
+					tag = f
+				}
+			}
+			if tag == "" {
+				continue
+			}
+			bubbles[tag] = append(bubbles[tag], g{id, state, b})
+		}
+		cur := map[string]string{}
+		for tag, gs := range bubbles {
+			stuck, site, fp := true, "", ""
+			var runner int64 = -1
+			var stacks []string
+			for _, x := range gs {
+				fp += fmt.Sprintf("%d:%s;", x.id, x.state)
+				switch {
+				case strings.HasPrefix(x.state, "synctest.Run"):
+					runner = x.id
+				case strings.Contains(x.state, "(durable)"):
+				case x.state == "sync.Mutex.Lock" || x.state == "sync.RWMutex.Lock" || x.state == "sync.RWMutex.RLock":
+					for _, l := range strings.Split(x.stack, "\n") {
+						l = strings.TrimSpace(l)
+						if strings.HasPrefix(l, "github.com/energomonitor/bisquitt/") {
+							if site == "" {
+								site = strings.TrimPrefix(l, "github.com/energomonitor/bisquitt/")
+								if k := strings.LastIndex(site, "("); k > 0 {
+									site = site[:k]
+								}
+							}
+							break
+						}
+					}
+				default:
+					stuck = false
+				}
+				if strings.Contains(x.stack, "github.com/energomonitor/bisquitt/") {
+					st := x.stack
+					if len(st) > 1500 {
+						st = st[:1500]
+					}
+					stacks = append(stacks, st)
+				}
+			}
+			if !stuck || site == "" || runner < 0 {
+				continue
+			}
+			cur[tag] = fp
+			if prev[tag] != fp {
+				continue
+			}
+			r.mu.Lock()
+			c := r.running[runner]
+			r.mu.Unlock()
+			if c == nil {
+				continue
+			}
+			what := fmt.Sprintf("deadlock: every goroutine of the case is blocked and one waits for a mutex in %s that nobody can release any more (%d goroutines inside bisquitt)", site, len(stacks))
+			if r.DeadlockIsViolation {
+				c.Violation("deadlock|"+site, what, map[string]interface{}{"stacks": stacks})
+			} else {
+				c.Inconclusive(what)
+			}
+			c.MarkDone()
+			r.ExitNow()
+		}
+		prev = cur
+	}
 }
 
 func (r *Run) Thorough() bool { return r.Tier == "thorough" }
@@ -197,7 +320,14 @@ func (r *Run) Each(t *testing.T, n int, workers int, desc func(i int) string, fn
 			c.Desc = desc(i)
 		}
 		r.line(map[string]interface{}{"t": "case", "i": i, "desc": c.Desc})
+		id := goid()
+		r.mu.Lock()
+		r.running[id] = c
+		r.mu.Unlock()
 		fn(t, c)
+		r.mu.Lock()
+		delete(r.running, id)
+		r.mu.Unlock()
 		if c.evals == 0 {
 			c.evals = 1
 		}
